@@ -127,6 +127,11 @@ def explore(ctx):
         cs.add('run_nlines', ct(text), [len(lines)])
         for name, cls in (('lines', LinesPass), ('markers', LineMarkersPass)):
             p = mk(cls, 'None' if name == 'lines' else None)
+            st_new = p.new(path, None)
+            want_inst = len(lines) if name == 'lines' else sum(1 for l in lines if re.search(r'^\s*#\s*[0-9]+', l))
+            got_inst = 0 if st_new is None else st_new.instances
+            if got_inst != want_inst:
+                viol('not-all-offered:' + name, f'{name} on {text!r}: the cursor covers {got_inst} instances, the file has {want_inst} (every line / marker must be offered)', {'pass': name, 'text': text})
             for st in states_all_reject(p, path, 25):
                 res, out, _, left = run_transform(ctx, p, text, st)
                 ctx.evaluations += 1
